@@ -30,6 +30,7 @@ pub fn blocks(thorough: bool) -> Vec<Block> {
         b.push(Block::new(Universe::new("U_tok{\\d,1,\\,d}", &["\\d", "1", "\\", "d"], 3, 2, false), vec![Cfg::new(D | R), Cfg::new(D | W | R), Cfg::new(D | NS | R)], "d+r, d+w+r, d+S+r"));
         b.push(Block::new(Universe::new("U_adv(A_gcm)", A_GCM, 2, 1, false), class_cfgs(&[0]), "64 class subsets"));
         b.push(Block::new(u_prefix_suffix(), class_cfgs(&[0]), "64 class subsets"));
+        b.push(Block::new(Universe::new("U_pairs{a,1,sp}^<=4", &["a", "1", " "], 4, 2, false), vec![Cfg::new(D | R | G), Cfg::new(S | R | G), Cfg::new(W | R | G | X), Cfg::new(D | R), Cfg::new(ND | R | G | I)], "d+r+g, s+r+g, w+r+g+x, d+r, D+r+g+i (optional runs of class tokens)"));
         b.push(Block::new(Universe::new("U_i{U+0130,a,-,1}", &["\u{130}", "a", "-", "1"], 2, 2, false), class_cfgs(&[I, I | R]), "64 class subsets x {i, i+r} (test cases that keep their upper-case form)"));
         b.push(Block::new(u_corpus("U_large_cls", verif_seed() + 5, 500, &["a", "1", "-", "\u{663}"], (8, 14), (3, 6)), vec![Cfg::new(D), Cfg::new(W), Cfg::new(D | NW), Cfg::new(D | W | R)], "d, w, d+W, d+w+r (corpus of large sets)"));
     } else {
